@@ -82,6 +82,23 @@ fn props() -> Vec<Prop> {
     ]
 }
 
+/// The case being executed is kept in `<trace>.current`, rewritten before every case: when the code under test ABORTS
+/// the process (a non-unwinding panic, e.g. a failed precondition check of unsafe code), the orchestrator finds the
+/// culprit there.  Aborts cannot be caught in-process; like panics they are data, not tool errors.
+struct Current(std::fs::File);
+impl Current {
+    fn new(trace_path: &str) -> Current {
+        Current(std::fs::File::create(format!("{}.current", trace_path)).expect("create sidecar"))
+    }
+    fn set(&mut self, case: &Value) {
+        use std::io::{Seek, SeekFrom};
+        let text = case.to_string();
+        let _ = self.0.seek(SeekFrom::Start(0));
+        let _ = self.0.write_all(text.as_bytes());
+        let _ = self.0.set_len(text.len() as u64);
+    }
+}
+
 fn usage() -> ! {
     eprintln!("usage: harness exec <ID> <cases.ndjson> <trace.ndjson>\n       harness drive <ID> <seed> <n> <size> <trace.ndjson> [<cases-out.ndjson>]");
     std::process::exit(2)
@@ -109,12 +126,14 @@ fn main() {
             let f = std::fs::File::open(&args[3]).expect("open cases");
             let out = BufWriter::new(std::fs::File::create(&args[4]).expect("create trace"));
             let mut em = Emitter::new(out, "exec");
+            let mut cur = Current::new(&args[4]);
             for (n, line) in std::io::BufReader::new(f).lines().enumerate() {
                 let line = line.expect("read");
                 if line.trim().is_empty() {
                     continue;
                 }
                 let case: Value = serde_json::from_str(&line).expect("case json");
+                cur.set(&case);
                 em.begin_case(n as u64, &case);
                 (p.run)(&case, &mut em);
             }
@@ -132,12 +151,14 @@ fn main() {
                 .get(7)
                 .map(|p| BufWriter::new(std::fs::File::create(p).expect("create cases")));
             let mut em = Emitter::new(out, "drive");
+            let mut cur = Current::new(&args[6]);
             let mut rng = Rng::new(seed ^ 0x9E37_79B9_7F4A_7C15);
             for k in 0..n {
                 let case = (p.gen)(&mut rng, size);
                 if let Some(w) = cases_out.as_mut() {
                     writeln!(w, "{}", case).unwrap();
                 }
+                cur.set(&case);
                 em.begin_case(k, &case);
                 (p.run)(&case, &mut em);
             }
